@@ -136,6 +136,8 @@ def check_program(spec, grid, want_coverage=True, max_issues=5, results=None, sk
                         issues.append(Issue("unsound", f"path {idx} claims {fmt_outcome(outcome2)} when the initial (empty) storage/balance arrays it reads are not forced to zero by its constraints; EVM gives {fmt_outcome(ref2)}", inputs, idx))
         if covered:
             stats["covered"] += 1
+        elif want_coverage and (info or {}).get("bounded_loops"):
+            stats["skipped_inputs"] += 1  # halmos flagged the exploration as bounded (loop unrolling): no coverage claim (C10 demands the flag)
         elif want_coverage:
             if ref_plain is None:
                 ref_plain, _ = hdriver.run_reference(spec, inputs)
